@@ -292,6 +292,24 @@ class _State:
                 self.ev(it.context_expr)
             self.block(st.body)
             return
+        if hasattr(ast, "Match") and isinstance(st, ast.Match):
+            # (a match statement the canonicalisation did not lower) every arm starts from the same environment
+            subj = self.ev(st.subject)
+            before = {k: set(v) for k, v in self.env.items()}
+            merged = {k: set(v) for k, v in before.items()}
+            for case in st.cases:
+                self.env = {k: set(v) for k, v in before.items()}
+                for x in ast.walk(case.pattern):
+                    nm = getattr(x, "name", None)
+                    if isinstance(x, (ast.MatchAs, ast.MatchStar)) and nm:
+                        self.env[nm] = self.elements(subj, None) | set(subj)
+                if case.guard is not None:
+                    self.ev(case.guard)
+                self.block(case.body)
+                for k, v in self.env.items():
+                    merged[k] = set(merged.get(k, ())) | v
+            self.env = merged
+            return
         if isinstance(st, ast.Try):
             self.block(st.body)
             for h in st.handlers:
